@@ -227,14 +227,20 @@ CHECKS = {
 # rules added after the texts above were written (kept separate so the per-property texts stay readable)
 EXTRA = {
     "C01": "R01.5 every path of Image::draw / SubImage drawing passes through the one draw call of the wrapped image on the target translated by the offset (must-pass-through on path summaries).",
-    "C02": "R02.9 Line::styled_bounding_box is with_corners over exactly the four end points of extents(stroke_width, StrokeOffset::None) (a fold over the literal array of the four points is expanded).",
+    "C03": "R03.8 Translated, ColorConverted and Cropped forward every call: on every path of draw_iter / fill_contiguous / fill_solid / clear the parent's method of the same name is called once on self.parent and its outcome returned (must-pass-through). R03.9 iterator::contiguous::Cropped::new discards exactly S = crop.y * size.width + crop.x source colours (nth(S - 1) under 0 < S, nothing under S = 0).",
+    "C05": "R05.4 also: a row of the ellipse / rounded rectangle is given up only after an exhausted column search (no second, shortcut membership test).",
+    "C07": "R07.5 on every path of Polyline::bounding_box the result is the documented empty box or every use of the vertex slice has self.translate added.",
+    "C14": "R14.5 builder integrity: every MonoTextStyleBuilder method that returns the builder keeps each style field in place unless it sets it from its arguments or a constant; no field receives a different field of the incoming style; From<&Style> carries every field.",
+    "C15": "R15.6 builder integrity of TextStyleBuilder (as R14.5). R15.7 sibling agreement: the font constants of one name carry the same metrics (size, spacing, baseline, underline, strikethrough) in every glyph subset.",
+    "C20": "R20.6 every returning path of from_pattern has established width <= SIZE and height <= SIZE and no other condition on the pattern's dimensions.",
+    "C02": "R02.10 every path of Polyline::draw_styled that touches the target with the raw stroke colour has excluded stroke_width == 0. R02.9 Line::styled_bounding_box is with_corners over exactly the four end points of extents(stroke_width, StrokeOffset::None) (a fold over the literal array of the four points is expanded).",
     "C06": "R06.7 the fill range of a styled scanline (circle, ellipse, rounded rectangle) is searched over the stroke scanline's own column range from its first column; a skipped or shifted range is reported.",
-    "C11": "R11.9 the public RawData::load/store of all 7 types hand (self,) buffer, index to LoadStore and return its outcome on every path; a path answering by itself must have established load(buffer, index) is Some(self) (Ok without a store) or is None (Err/None).",
+    "C11": "R11.8 layout form: load/store of the sub-byte types with every helper inlined, evaluated in the bit domain for both data orders and every pixel index of two bytes against the documented layout (independent of the bit_position helper). R11.6 construction: RawDataSlice::into_iter starts with data = self.data and index = 0. R11.9 the public RawData::load/store of all 7 types hand (self,) buffer, index to LoadStore and return its outcome on every path; a path answering by itself must have established load(buffer, index) is Some(self) (Ok without a store) or is None (Err/None).",
     "C12": "O6 also covers to_ne_bytes (native order of the analysed host build).",
     "C16": "R16.8 (decision by order types, mirq/orders.py) for non-empty rectangles Rectangle::intersection takes the corner-building exit exactly when column ranges and row ranges overlap: all 100 x 100 order types of the eight corner coordinates are read off the path summaries; arithmetic on a coordinate makes the rule undecided.",
     "C17": "R17.6 the styled line's pixel iterator pulls exactly one item of ThickPoints::next per call, ends iff the pull ends and returns Pixel(pulled point, colour): no filter or search over the point iterator.",
     "C18": "R18.9 the first / last column of a rounded-rectangle row is searched over the rectangle's whole column range (a corner can be wider than half the rectangle). R05.1 sector wiring (Sector::contains = circle test and PlaneSector test on 2p - center_2x; Sector::center_2x equals the circle's formula).",
-    "C19": "R19.5 (decision by order types) Triangle::sorted_yx returns a permutation of the vertices ordered by (y, x) for all 729 order types of the six coordinates. R19.6 the triangle stored in ScanlineIntersections and asked is_collapsed is sorted_clockwise(..) on every path, traced through parameters to every call site. R19.7 a Pixel built from an item of polyline::Points in the polyline's styled code has that item itself as its point (no second translation).",
+    "C19": "R19.5 (decision by order types) Triangle::sorted_yx returns a permutation of the vertices ordered by (y, x) for all 729 order types of the six coordinates. R19.6 the triangle stored in ScanlineIntersections and asked is_collapsed is sorted_clockwise(..) on every path, traced through parameters to every call site. R19.7 a Pixel built from an item of polyline::Points in the polyline's styled code has that item itself as its point (no second translation), and every item reaches the pixel closure (no skip/filter/take). R19.8 the one-pixel case of ThickSegment::intersection intersects exactly edges().0 on every skeleton path.",
 }
 for _k, _v in EXTRA.items():
     CHECKS[_k]["explanation"] = CHECKS[_k]["explanation"].rstrip() + " " + _v
